@@ -227,6 +227,26 @@ impl<'tcx> Cx<'tcx> {
             }
             o.push(("name", s(tcx.item_name(did).to_string())));
         }
+        if matches!(kind, DefKind::Fn | DefKind::AssocFn) {
+            // names of the type/const generic parameters, parent (impl) parameters first: the same
+            // order as the generic arguments recorded at call sites
+            let generics = tcx.generics_of(did);
+            let mut names: Vec<J> = vec![];
+            let mut stack = vec![generics];
+            let mut cur = generics;
+            while let Some(parent) = cur.parent {
+                cur = tcx.generics_of(parent);
+                stack.push(cur);
+            }
+            for g in stack.iter().rev() {
+                for prm in &g.own_params {
+                    if !matches!(prm.kind, ty::GenericParamDefKind::Lifetime) {
+                        names.push(s(prm.name.to_string()));
+                    }
+                }
+            }
+            o.push(("generics", J::A(names)));
+        }
         o.push(("argc", n(body.arg_count)));
         if only_meta {
             return J::O(o);
